@@ -1,4 +1,447 @@
-From Coq Require Import List Arith ZArith QArith Bool Lia.
+(* C11 — Background2D maps are full-size, finite, mask-blind and equivariant.
+   Property theorems only; each is closed by [exact] of a lemma of C11_Proofs.
+
+   Vocabulary (C11_Model.v).  An image is [img A = list (list A)], read with
+   [get2 default m y x]; [shape h w m] says that m has h rows of length w.  Pixel values are
+   scaled integers [option Z] ([None] = NaN / inf).  [nmy ny by] x [nmx nx bx] is the mesh
+   shape for edge_method='pad'; [cell_coords ny nx by bx i j] is the list of pixel
+   coordinates that the code gathers for mesh cell (i,j) through one of its four index
+   arithmetic paths (core boxes, extra row, extra column, corner);
+   [box_vals data mask cov clip coords] = sigma clip of the finite pixels at [coords] that
+   are neither masked nor coverage-masked; [excluded by bx p n] is the exclusion rule of the
+   REPAIRED code (fixes/C11-1); [background2d ...] is the whole pipeline and returns
+   [AllExcluded] (the ValueError) or [Maps npixels_mesh mesh_nan_mask background_mesh
+   background_rms_mesh background background_rms].
+   The estimators [est], [rms], the sigma clip [clip], the raw Shepard value [idw] of an
+   excluded cell, the window [median] and the upscaling [interp] (scipy zoom / Shepard IDW)
+   are PARAMETERS of the model: theorems that hold for every choice of them are full;
+   theorems that need facts about them state those facts as premises ([_partial], or premises
+   that are discharged for the concrete mean / median / std / window median below). *)
+From Coq Require Import List Arith ZArith QArith Bool Permutation.
 From PV Require Import lib.Cases C11_Model C11_Proofs.
 Import ListNotations.
-Open Scope nat_scope.
+Open Scope Q_scope.
+
+(* ------------------------------------------------------------------ *)
+(* boxes_partition_image: with box sizes 0 < by, bx every pixel of the ny x nx image lies in
+   the coordinate list of exactly one mesh cell (core boxes and padded edge boxes together),
+   and it occurs there once. *)
+Theorem boxes_partition_image : forall ny nx by_ bx : nat,
+  (0 < by_)%nat -> (0 < bx)%nat ->
+  forall y x : nat, (y < ny)%nat -> (x < nx)%nat ->
+  exists i j : nat,
+    (i < nmy ny by_)%nat /\ (j < nmx nx bx)%nat /\
+    In (y, x) (cell_coords ny nx by_ bx i j) /\
+    NoDup (cell_coords ny nx by_ bx i j) /\
+    (forall i' j' : nat, (i' < nmy ny by_)%nat -> (j' < nmx nx bx)%nat ->
+       In (y, x) (cell_coords ny nx by_ bx i' j') -> i' = i /\ j' = j).
+Proof. exact boxes_partition. Qed.
+Print Assumptions boxes_partition_image.
+
+(* ... and a mesh cell never refers to a coordinate outside the image *)
+Theorem boxes_inside_image : forall ny nx by_ bx : nat,
+  (0 < by_)%nat -> (0 < bx)%nat ->
+  forall (i j : nat) (c : nat * nat), (i < nmy ny by_)%nat -> (j < nmx nx bx)%nat ->
+  In c (cell_coords ny nx by_ bx i j) -> (fst c < ny)%nat /\ (snd c < nx)%nat.
+Proof. exact cell_coords_in_image. Qed.
+Print Assumptions boxes_inside_image.
+
+(* mesh_cell_is_block: whichever code path computes cell (i,j) (reshape_as_blocks +
+   reshape / moveaxis / transpose / corner slice), the pixels it gathers are exactly those of
+   the block rows [i*by, min((i+1)*by, ny)) x columns [j*bx, min((j+1)*bx, nx)), each once
+   (a permutation of the row-major block); a padded edge cell has fewer real pixels than the
+   full box, never more. *)
+Theorem mesh_cell_is_block : forall ny nx by_ bx : nat,
+  (0 < by_)%nat -> (0 < bx)%nat ->
+  forall i j : nat, (i < nmy ny by_)%nat -> (j < nmx nx bx)%nat ->
+  (forall y x : nat, In (y, x) (cell_coords ny nx by_ bx i j) <->
+     (i * by_ <= y < Nat.min ((i + 1) * by_) ny)%nat /\ (j * bx <= x < Nat.min ((j + 1) * bx) nx)%nat) /\
+  NoDup (cell_coords ny nx by_ bx i j) /\
+  Permutation (cell_coords ny nx by_ bx i j) (block_coords ny nx by_ bx i j) /\
+  (length (cell_coords ny nx by_ bx i j) =
+     (Nat.min ((i + 1) * by_) ny - i * by_) * (Nat.min ((j + 1) * bx) nx - j * bx))%nat /\
+  (length (cell_coords ny nx by_ bx i j) <= by_ * bx)%nat.
+Proof. exact mesh_cell_block_full. Qed.
+Print Assumptions mesh_cell_is_block.
+
+(* the mesh index of a pixel is (y / by, x / bx), also in the padded row / column / corner *)
+Theorem mesh_cell_of_pixel : forall ny nx by_ bx : nat,
+  (0 < by_)%nat -> (0 < bx)%nat ->
+  forall i j y x : nat, (i < nmy ny by_)%nat -> (j < nmx nx bx)%nat ->
+  (In (y, x) (cell_coords ny nx by_ bx i j) <->
+   (y < ny)%nat /\ (x < nx)%nat /\ (y / by_)%nat = i /\ (x / bx)%nat = j).
+Proof. exact cell_coords_spec. Qed.
+Print Assumptions mesh_cell_of_pixel.
+
+(* ------------------------------------------------------------------ *)
+(* exclusion_rule (repaired code, fixes/C11-1): in every mesh cell — core or padded —
+   npixels_mesh is the number n of values that survive masking and clipping; the cell is NaN
+   in the low-resolution statistics iff n = 0 or n < (1 - p/100) * by*bx, with the FULL box
+   size by*bx also for padded cells; background and RMS are excluded together; a kept cell
+   holds the estimators of exactly those values. *)
+Theorem exclusion_rule : forall ny nx by_ bx : nat,
+  (0 < by_)%nat -> (0 < bx)%nat ->
+  forall (data : img (option Z)) (mask cov : img bool) (p : Q) (est rms : list Z -> Q)
+         (clip : list Z -> list Z) (i j : nat),
+  (i < nmy ny by_)%nat -> (j < nmx nx bx)%nat ->
+  let vals := box_vals data mask cov clip (cell_coords ny nx by_ bx i j) in
+  let n := length vals in
+  get2 0%nat (ngood_mesh ny nx by_ bx data mask cov p est rms clip) i j = n /\
+  (get2 None (bkg_stats ny nx by_ bx data mask cov p est rms clip) i j = None <->
+     n = 0%nat \/ inject_Z (Z.of_nat n) < (1 - p / 100) * inject_Z (Z.of_nat (by_ * bx))) /\
+  (get2 None (rms_stats ny nx by_ bx data mask cov p est rms clip) i j = None <->
+     get2 None (bkg_stats ny nx by_ bx data mask cov p est rms clip) i j = None) /\
+  (get2 false (nan_mask ny nx by_ bx data mask cov p est rms clip) i j = true <->
+     get2 None (bkg_stats ny nx by_ bx data mask cov p est rms clip) i j = None) /\
+  (get2 None (bkg_stats ny nx by_ bx data mask cov p est rms clip) i j <> None ->
+     (0 < n)%nat /\
+     get2 None (bkg_stats ny nx by_ bx data mask cov p est rms clip) i j = Some (est vals) /\
+     get2 None (rms_stats ny nx by_ bx data mask cov p est rms clip) i j = Some (rms vals)).
+Proof. exact mesh_cell_rule. Qed.
+Print Assumptions exclusion_rule.
+
+(* the same rule as documented: excluded iff MORE than p percent of the full box is masked
+   (masked = by*bx - n: mask, coverage mask, non-finite, padding, clipped), or everything *)
+Theorem exclusion_rule_masked_fraction : forall (by_ bx : nat) (p : Q) (n : nat),
+  excluded by_ bx p n = true <->
+  n = 0%nat \/
+  p / 100 * inject_Z (Z.of_nat (by_ * bx)) < inject_Z (Z.of_nat (by_ * bx)) - inject_Z (Z.of_nat n).
+Proof. exact excluded_iff_masked_fraction. Qed.
+Print Assumptions exclusion_rule_masked_fraction.
+
+(* the rule of the UNREPAIRED code, ngood <= (1 - p/100) * by*bx, excludes a box without a
+   single masked pixel when exclude_percentile = 0 (so every box, and Background2D raises for
+   every image), whereas the repaired rule keeps it — for every box size.  Replayed on the
+   implementation by the harness (signature Background2D:exclude_percentile-boundary). *)
+Theorem unrepaired_exclusion_rule_refuted : forall by_ bx : nat,
+  excluded_unrepaired by_ bx 0 (by_ * bx) = true /\
+  ((0 < by_ * bx)%nat -> excluded by_ bx 0 (by_ * bx) = false).
+Proof. exact unrepaired_rule_excludes_clean_box. Qed.
+Print Assumptions unrepaired_exclusion_rule_refuted.
+
+(* the "All boxes contain ..." error is raised iff every cell is excluded by the rule *)
+Theorem all_excluded_error_iff :
+  forall (ny nx by0 bx0 : nat) (data : img (option Z)) (mask cov : img bool)
+         (p : Q) (est rms : list Z -> Q) (clip : list Z -> list Z) (idw : img (option Q) -> nat -> nat -> Q)
+         (median : list Q -> Q) (fy fx : nat) (fthr : option Q) (fill : Q) (do_clip : bool)
+         (interp : img Q -> nat -> nat -> Q),
+  background2d ny nx by0 bx0 data mask cov p est rms clip idw median fy fx fthr fill do_clip interp =
+    AllExcluded <->
+  all_excluded ny nx (clipbox by0 ny) (clipbox bx0 nx) data mask cov p est rms clip = true.
+Proof. exact b2d_allexcluded. Qed.
+Print Assumptions all_excluded_error_iff.
+
+(* mesh_value_is_estimator: with filter_size = (1,1), for every estimator, clip and IDW:
+   npixels_mesh and the NaN mask follow the rule; a kept cell of background_mesh /
+   background_rms_mesh IS the estimator of the clipped unmasked pixels of its block (a
+   non-empty sample); an excluded cell is filled with a value within the range of the kept
+   cells (repaired code, fixes/C11-2). *)
+Theorem mesh_value_is_estimator : forall ny nx by0 bx0 : nat,
+  (0 < ny)%nat -> (0 < nx)%nat -> (0 < by0)%nat -> (0 < bx0)%nat ->
+  forall (data : img (option Z)) (mask cov : img bool) (p : Q) (est rms : list Z -> Q)
+         (clip : list Z -> list Z) (idw : img (option Q) -> nat -> nat -> Q) (median : list Q -> Q)
+         (fy fx : nat) (fthr : option Q),
+  (0 < fy)%nat -> (0 < fx)%nat ->
+  forall (fill : Q) (do_clip : bool) (interp : img Q -> nat -> nat -> Q) (np : img nat)
+         (nm : img bool) (bm rm b r : img Q) (i j : nat),
+  background2d ny nx by0 bx0 data mask cov p est rms clip idw median fy fx fthr fill do_clip interp =
+    Maps np nm bm rm b r ->
+  fy = 1%nat -> fx = 1%nat ->
+  (i < nmy ny (clipbox by0 ny))%nat -> (j < nmx nx (clipbox bx0 nx))%nat ->
+  let vals := box_vals data mask cov clip (cell_coords ny nx (clipbox by0 ny) (clipbox bx0 nx) i j) in
+  get2 0%nat np i j = length vals /\
+  get2 false nm i j = excluded (clipbox by0 ny) (clipbox bx0 nx) p (length vals) /\
+  (excluded (clipbox by0 ny) (clipbox bx0 nx) p (length vals) = false ->
+     vals <> nil /\ get2 0 bm i j = est vals /\ get2 0 rm i j = rms vals) /\
+  qminl (somes (concat (bkg_stats ny nx (clipbox by0 ny) (clipbox bx0 nx) data mask cov p est rms clip)))
+    <= get2 0 bm i j <=
+  qmaxl (somes (concat (bkg_stats ny nx (clipbox by0 ny) (clipbox bx0 nx) data mask cov p est rms clip))) /\
+  qminl (somes (concat (rms_stats ny nx (clipbox by0 ny) (clipbox bx0 nx) data mask cov p est rms clip)))
+    <= get2 0 rm i j <=
+  qmaxl (somes (concat (rms_stats ny nx (clipbox by0 ny) (clipbox bx0 nx) data mask cov p est rms clip))).
+Proof. exact b2d_mesh_unfiltered. Qed.
+Print Assumptions mesh_value_is_estimator.
+
+(* ------------------------------------------------------------------ *)
+(* mask_blind: two images that agree on every pixel that is neither masked nor
+   coverage-masked (whatever is stored under the masks: numbers, NaN, inf) give the same
+   result — error or npixels, NaN mask, meshes and maps — for every estimator, clip, IDW,
+   filter and interpolator. *)
+Theorem mask_blind : forall ny nx by0 bx0 : nat,
+  (0 < ny)%nat -> (0 < nx)%nat -> (0 < by0)%nat -> (0 < bx0)%nat ->
+  forall (data data' : img (option Z)) (mask cov : img bool),
+  (forall y x : nat, (y < ny)%nat -> (x < nx)%nat ->
+     get2 false mask y x = false -> get2 false cov y x = false ->
+     get2 None data y x = get2 None data' y x) ->
+  forall (p : Q) (est rms : list Z -> Q) (clip : list Z -> list Z)
+         (idw : img (option Q) -> nat -> nat -> Q) (median : list Q -> Q) (fy fx : nat)
+         (fthr : option Q) (fill : Q) (do_clip : bool) (interp : img Q -> nat -> nat -> Q),
+  background2d ny nx by0 bx0 data mask cov p est rms clip idw median fy fx fthr fill do_clip interp =
+  background2d ny nx by0 bx0 data' mask cov p est rms clip idw median fy fx fthr fill do_clip interp.
+Proof. exact b2d_mask_blind. Qed.
+Print Assumptions mask_blind.
+
+(* coverage_is_fill_exactly *)
+Theorem coverage_is_fill_exactly :
+  forall (ny nx by0 bx0 : nat) (data : img (option Z)) (mask cov : img bool)
+         (p : Q) (est rms : list Z -> Q) (clip : list Z -> list Z) (idw : img (option Q) -> nat -> nat -> Q)
+         (median : list Q -> Q) (fy fx : nat) (fthr : option Q) (fill : Q) (do_clip : bool)
+         (interp : img Q -> nat -> nat -> Q) (np : img nat) (nm : img bool) (bm rm b r : img Q)
+         (y x : nat) (d : Q),
+  background2d ny nx by0 bx0 data mask cov p est rms clip idw median fy fx fthr fill do_clip interp =
+    Maps np nm bm rm b r ->
+  (y < ny)%nat -> (x < nx)%nat -> get2 false cov y x = true ->
+  get2 d b y x = fill /\ get2 d r y x = fill.
+Proof. exact b2d_cov_fill. Qed.
+Print Assumptions coverage_is_fill_exactly.
+
+(* output_shape: maps have the shape of the data, meshes the shape of the mesh grid *)
+Theorem output_shape : forall ny nx by0 bx0 : nat,
+  (0 < ny)%nat -> (0 < by0)%nat ->
+  forall (data : img (option Z)) (mask cov : img bool) (p : Q) (est rms : list Z -> Q)
+         (clip : list Z -> list Z) (idw : img (option Q) -> nat -> nat -> Q) (median : list Q -> Q)
+         (fy fx : nat) (fthr : option Q) (fill : Q) (do_clip : bool) (interp : img Q -> nat -> nat -> Q)
+         (np : img nat) (nm : img bool) (bm rm b r : img Q),
+  background2d ny nx by0 bx0 data mask cov p est rms clip idw median fy fx fthr fill do_clip interp =
+    Maps np nm bm rm b r ->
+  shape ny nx b /\ shape ny nx r /\
+  shape (nmy ny (clipbox by0 ny)) (nmx nx (clipbox bx0 nx)) bm /\
+  shape (nmy ny (clipbox by0 ny)) (nmx nx (clipbox bx0 nx)) rm /\
+  shape (nmy ny (clipbox by0 ny)) (nmx nx (clipbox bx0 nx)) np /\
+  shape (nmy ny (clipbox by0 ny)) (nmx nx (clipbox bx0 nx)) nm.
+Proof. exact b2d_shape. Qed.
+Print Assumptions output_shape.
+
+(* within_mesh_range: with the clipped interpolator (BkgZoomInterpolator(clip=True), the
+   default) every map pixel outside the coverage mask lies within [min, max] of the
+   (filtered) mesh — for ANY upscaling function, because the clip is part of the model. *)
+Theorem within_mesh_range :
+  forall (ny nx by0 bx0 : nat) (data : img (option Z)) (mask cov : img bool)
+         (p : Q) (est rms : list Z -> Q) (clip : list Z -> list Z) (idw : img (option Q) -> nat -> nat -> Q)
+         (median : list Q -> Q) (fy fx : nat) (fthr : option Q) (fill : Q) (do_clip : bool)
+         (interp : img Q -> nat -> nat -> Q) (np : img nat) (nm : img bool) (bm rm b r : img Q)
+         (y x : nat) (d : Q),
+  background2d ny nx by0 bx0 data mask cov p est rms clip idw median fy fx fthr fill do_clip interp =
+    Maps np nm bm rm b r ->
+  do_clip = true -> (y < ny)%nat -> (x < nx)%nat -> get2 false cov y x = false ->
+  qminl (concat bm) <= get2 d b y x <= qmaxl (concat bm) /\
+  qminl (concat rm) <= get2 d r y x <= qmaxl (concat rm).
+Proof. exact b2d_range. Qed.
+Print Assumptions within_mesh_range.
+
+(* ------------------------------------------------------------------ *)
+(* constant_image_exact: if every pixel that is not masked / coverage-masked / non-finite
+   equals c, then both meshes and both maps are the constant c resp. 0 (fill_value on the
+   coverage mask) — whatever the IDW fill and the upscaling do (repaired IDW clip + the
+   ptp == 0 branch).  Premises on the user-supplied numerics: the clip only removes values;
+   the estimators return c / 0 on a non-empty constant sample; the median of a non-empty
+   constant window is that constant. *)
+Theorem constant_image_exact : forall ny nx by0 bx0 : nat,
+  (0 < ny)%nat -> (0 < nx)%nat -> (0 < by0)%nat -> (0 < bx0)%nat ->
+  forall (data : img (option Z)) (mask cov : img bool) (p : Q) (est rms : list Z -> Q)
+         (clip : list Z -> list Z) (idw : img (option Q) -> nat -> nat -> Q) (median : list Q -> Q)
+         (fy fx : nat) (fthr : option Q),
+  (0 < fy)%nat -> (0 < fx)%nat ->
+  forall (fill : Q) (do_clip : bool) (interp : img Q -> nat -> nat -> Q) (c : Z),
+  (forall y x : nat, (y < ny)%nat -> (x < nx)%nat ->
+     pix data mask cov y x = None \/ pix data mask cov y x = Some c) ->
+  (forall (l : list Z) (v : Z), In v (clip l) -> In v l) ->
+  (forall l : list Z, l <> nil -> (forall v : Z, In v l -> v = c) -> est l == inject_Z c) ->
+  (forall l : list Z, l <> nil -> (forall v : Z, In v l -> v = c) -> rms l == 0) ->
+  (forall (q : Q) (l : list Q), l <> nil -> allq q l -> median l == q) ->
+  forall (np : img nat) (nm : img bool) (bm rm b r : img Q),
+  background2d ny nx by0 bx0 data mask cov p est rms clip idw median fy fx fthr fill do_clip interp =
+    Maps np nm bm rm b r ->
+  (forall i j : nat, (i < nmy ny (clipbox by0 ny))%nat -> (j < nmx nx (clipbox bx0 nx))%nat ->
+     get2 0 bm i j == inject_Z c /\ get2 0 rm i j == 0) /\
+  (forall (y x : nat) (d : Q), (y < ny)%nat -> (x < nx)%nat ->
+     if get2 false cov y x
+     then get2 d b y x = fill /\ get2 d r y x = fill
+     else get2 d b y x == inject_Z c /\ get2 d r y x == 0).
+Proof. exact b2d_constant. Qed.
+Print Assumptions constant_image_exact.
+
+(* ... with the premises discharged for the estimators of the correspondence (Mean or
+   Median background, Std RMS, sigma_clip=None, the window median): no premise left *)
+Theorem constant_image_exact_mean_median_std :
+  forall ny nx by0 bx0 data mask cov p estk idw fy fx fthr fill do_clip interp c np nm bm rm b r,
+  (0 < ny)%nat -> (0 < nx)%nat -> (0 < by0)%nat -> (0 < bx0)%nat -> (0 < fy)%nat -> (0 < fx)%nat ->
+  (forall y x, (y < ny)%nat -> (x < nx)%nat ->
+     pix data mask cov y x = None \/ pix data mask cov y x = Some c) ->
+  background2d ny nx by0 bx0 data mask cov p (est_of estk) qvar noclip idw qmedian fy fx fthr
+               fill do_clip interp = Maps np nm bm rm b r ->
+  (forall i j, (i < nmy ny (clipbox by0 ny))%nat -> (j < nmx nx (clipbox bx0 nx))%nat ->
+     get2 0 bm i j == inject_Z c /\ get2 0 rm i j == 0) /\
+  (forall y x d, (y < ny)%nat -> (x < nx)%nat ->
+     if get2 false cov y x then get2 d b y x = fill /\ get2 d r y x = fill
+     else get2 d b y x == inject_Z c /\ get2 d r y x == 0).
+Proof. exact b2d_constant_concrete. Qed.
+Print Assumptions constant_image_exact_mean_median_std.
+
+(* ------------------------------------------------------------------ *)
+(* shift_scale_equivariant_partial.  data' = k*data + c pixelwise (k > 0; c = 0 is pure
+   scaling, k = 1 pure shift), filter_threshold transformed alike.  PREMISES (not proved
+   about the library code, listed in the evidence): sigma clip commutes with the map; the
+   background estimator is equivariant, the RMS estimator scales by k and ignores c (on
+   non-empty samples); the Shepard fill, the window median and the upscaling are equivariant
+   under v -> a*v + b, a > 0 ([idw_equivariant], [median_equivariant], [interp_equivariant]).
+   CONCLUSION: the error is raised for both or neither; npixels_mesh and the NaN mask are
+   identical; background mesh and map are k*(.) + c, RMS mesh and map are k*(.); coverage
+   pixels are fill_value in both.  [arel a b u v] is v == a*u + b; [irel] relates two images
+   cell by cell (and forces equal shapes). *)
+Theorem shift_scale_equivariant_partial : forall ny nx by0 bx0 : nat,
+  (0 < ny)%nat -> (0 < nx)%nat -> (0 < by0)%nat -> (0 < bx0)%nat ->
+  forall (data : img (option Z)) (mask cov : img bool) (p : Q) (est rms : list Z -> Q)
+         (clip : list Z -> list Z) (idw : img (option Q) -> nat -> nat -> Q) (median : list Q -> Q)
+         (fy fx : nat) (fthr : option Q),
+  (0 < fy)%nat -> (0 < fx)%nat ->
+  forall (fill : Q) (do_clip : bool) (interp : img Q -> nat -> nat -> Q) (k c : Z),
+  (0 < k)%Z ->
+  (forall l : list Z,
+     clip (map (fun v : Z => (k * v + c)%Z) l) = map (fun v : Z => (k * v + c)%Z) (clip l)) ->
+  (forall l : list Z,
+     l <> nil -> est (map (fun v : Z => (k * v + c)%Z) l) == inject_Z k * est l + inject_Z c) ->
+  (forall l : list Z, l <> nil -> rms (map (fun v : Z => (k * v + c)%Z) l) == inject_Z k * rms l) ->
+  idw_equivariant idw -> median_equivariant median -> interp_equivariant interp ->
+  (background2d ny nx by0 bx0 data mask cov p est rms clip idw median fy fx fthr fill do_clip interp =
+     AllExcluded <->
+   background2d ny nx by0 bx0 (map (map (option_map (fun v : Z => (k * v + c)%Z))) data) mask cov p est
+     rms clip idw median fy fx (option_map (fun t : Q => inject_Z k * t + inject_Z c) fthr) fill do_clip
+     interp = AllExcluded) /\
+  (forall (np : img nat) (nm : img bool) (bm rm b r : img Q),
+   background2d ny nx by0 bx0 data mask cov p est rms clip idw median fy fx fthr fill do_clip interp =
+     Maps np nm bm rm b r ->
+   exists bm' rm' b' r' : img Q,
+     background2d ny nx by0 bx0 (map (map (option_map (fun v : Z => (k * v + c)%Z))) data) mask cov p
+       est rms clip idw median fy fx (option_map (fun t : Q => inject_Z k * t + inject_Z c) fthr) fill
+       do_clip interp = Maps np nm bm' rm' b' r' /\
+     irel (arel (inject_Z k) (inject_Z c)) bm bm' /\
+     irel (arel (inject_Z k) 0) rm rm' /\
+     (forall (y x : nat) (d : Q), (y < ny)%nat -> (x < nx)%nat ->
+        if get2 false cov y x
+        then (get2 d b y x = fill /\ get2 d b' y x = fill) /\ get2 d r y x = fill /\ get2 d r' y x = fill
+        else arel (inject_Z k) (inject_Z c) (get2 d b y x) (get2 d b' y x) /\
+             arel (inject_Z k) 0 (get2 d r y x) (get2 d r' y x))).
+Proof. exact b2d_equivariant. Qed.
+Print Assumptions shift_scale_equivariant_partial.
+
+(* the premises are satisfiable: the mean is an equivariant estimator, the exact window
+   median of the model is equivariant, and there are equivariant fills / upscalings *)
+Theorem equivariance_premises_satisfiable :
+  (forall k c l, l <> nil ->
+     qmean (map (fun v => k * v + c)%Z l) == inject_Z k * qmean l + inject_Z c) /\
+  median_equivariant qmedian /\ idw_equivariant idw_first /\ interp_equivariant interp_first.
+Proof.
+  exact (conj qmean_equivariant (conj qmedian_equivariant
+          (conj idw_first_equivariant interp_first_equivariant))).
+Qed.
+Print Assumptions equivariance_premises_satisfiable.
+
+(* ------------------------------------------------------------------ *)
+(* finite_everywhere_partial.  In the model every mesh and map value is a rational, so
+   "finite" holds by construction; what the model contributes is the list of facts that
+   finiteness of the floating-point code rests on: whenever maps are returned (1) at least
+   one box is kept — the IDW fill has a source and min/max of the kept boxes exist; (2) an
+   estimator is only ever applied to a NON-EMPTY sample, (3) made of finite pixels that are
+   neither masked nor coverage-masked; (4) every mesh cell and every map pixel is defined.
+   MISSING (premise, tested only): estimators, Shepard IDW, nanmedian and zoom return finite
+   floats on such input and do not overflow. *)
+Theorem finite_everywhere_partial : forall ny nx by0 bx0 : nat,
+  (0 < ny)%nat -> (0 < by0)%nat ->
+  forall (data : img (option Z)) (mask cov : img bool) (p : Q) (est rms : list Z -> Q)
+         (clip : list Z -> list Z) (idw : img (option Q) -> nat -> nat -> Q) (median : list Q -> Q)
+         (fy fx : nat) (fthr : option Q) (fill : Q) (do_clip : bool) (interp : img Q -> nat -> nat -> Q)
+         (np : img nat) (nm : img bool) (bm rm b r : img Q),
+  background2d ny nx by0 bx0 data mask cov p est rms clip idw median fy fx fthr fill do_clip interp =
+    Maps np nm bm rm b r ->
+  (exists i j : nat,
+     (i < nmy ny (clipbox by0 ny))%nat /\ (j < nmx nx (clipbox bx0 nx))%nat /\
+     excluded (clipbox by0 ny) (clipbox bx0 nx) p
+       (length (box_vals data mask cov clip (cell_coords ny nx (clipbox by0 ny) (clipbox bx0 nx) i j))) =
+     false) /\
+  (forall i j : nat,
+     excluded (clipbox by0 ny) (clipbox bx0 nx) p
+       (length (box_vals data mask cov clip (cell_coords ny nx (clipbox by0 ny) (clipbox bx0 nx) i j))) =
+     false -> box_vals data mask cov clip (cell_coords ny nx (clipbox by0 ny) (clipbox bx0 nx) i j) <> nil) /\
+  (forall (i j : nat) (v : Z),
+     In v (goodvals (map (fun c : nat * nat => pix data mask cov (fst c) (snd c))
+                         (cell_coords ny nx (clipbox by0 ny) (clipbox bx0 nx) i j))) ->
+     exists y x : nat,
+       In (y, x) (cell_coords ny nx (clipbox by0 ny) (clipbox bx0 nx) i j) /\
+       get2 false mask y x = false /\ get2 false cov y x = false /\ get2 None data y x = Some v) /\
+  shape ny nx b /\ shape ny nx r /\
+  shape (nmy ny (clipbox by0 ny)) (nmx nx (clipbox bx0 nx)) bm /\
+  shape (nmy ny (clipbox by0 ny)) (nmx nx (clipbox bx0 nx)) rm.
+Proof. exact b2d_finite_pre. Qed.
+Print Assumptions finite_everywhere_partial.
+
+(* ------------------------------------------------------------------ *)
+(* non-vacuity: concrete runs of the model *)
+Close Scope Q_scope.
+Open Scope Z_scope.
+
+(* 5 x 5 image, box 2 x 2 -> 3 x 3 mesh with a padded row, column and corner; one masked
+   pixel, one NaN; exclude_percentile = 50: the corner cell (1 real pixel of 4) is excluded,
+   the edge cells with 2 of 4 sit exactly on the threshold and are KEPT by the repaired rule *)
+Definition ex_data : img (option Z) :=
+  [ [Some 4; Some 8; Some 4; Some 8; Some 12]
+  ; [Some 8; Some 4; Some 8; None;   Some 4]
+  ; [Some 4; Some 8; Some 4; Some 8; Some 20]
+  ; [Some 8; Some 4; Some 8; Some 4; Some 8]
+  ; [Some 0; Some 8; Some 4; Some 12; Some 40] ].
+Definition ex_mask : img bool :=
+  [ [true; false; false; false; false] ; [false; false; false; false; false]
+  ; [false; false; false; false; false] ; [false; false; false; false; false]
+  ; [false; false; false; false; false] ].
+Definition ex_cov : img bool := map (map (fun _ : bool => false)) ex_mask.
+
+Example ex_mesh_shape : (nmy 5 2, nmx 5 2) = (3%nat, 3%nat).
+Proof. reflexivity. Qed.
+Example ex_corner_path : cell_coords 5 5 2 2 2 2 = [(4%nat, 4%nat)]
+  /\ cell_coords 5 5 2 2 2 0 = [(4, 0); (4, 1)]%nat          (* extra row: moveaxis order *)
+  /\ cell_coords 5 5 2 2 0 2 = [(0, 4); (1, 4)]%nat          (* extra column *)
+  /\ cell_coords 5 5 2 2 1 1 = [(2, 2); (2, 3); (3, 2); (3, 3)]%nat.
+Proof. repeat split; reflexivity. Qed.
+Example ex_npixels_and_excluded :
+  ngood_mesh 5 5 2 2 ex_data ex_mask ex_cov (50 # 1) qmean qvar noclip
+    = [[3; 3; 2]; [4; 4; 2]; [2; 2; 1]]%nat
+  /\ nan_mask 5 5 2 2 ex_data ex_mask ex_cov (50 # 1) qmean qvar noclip
+    = [[false; false; false]; [false; false; false]; [false; false; true]].
+Proof. split; vm_compute; reflexivity. Qed.
+(* with exclude_percentile = 0 only the boxes without any masked pixel are kept (the
+   unrepaired rule excludes them all and the constructor raises) *)
+Example ex_p0_repaired_vs_unrepaired :
+  nan_mask 5 5 2 2 ex_data ex_mask ex_cov 0 qmean qvar noclip
+    = [[true; true; true]; [false; false; true]; [true; true; true]]
+  /\ excluded_unrepaired 2 2 0 4 = true.
+Proof. split; vm_compute; reflexivity. Qed.
+(* the mean of the kept cell (1,1) and a whole run of the pipeline with stand-in numerics *)
+Example ex_pipeline_runs :
+  match background2d 5 5 2 2 ex_data ex_mask ex_cov (50 # 1) qmean qvar noclip idw_first qmedian
+                     1 1 None 0%Q true interp_first with
+  | Maps np nm bm rm b r =>
+      Qeq_bool (get2 0%Q bm 1 1) (6 # 1) = true /\ length b = 5%nat /\ get2 false nm 2 2 = true
+  | AllExcluded => False
+  end.
+Proof. vm_compute. repeat split; reflexivity. Qed.
+(* a fully masked image raises the error *)
+Example ex_all_excluded :
+  background2d 2 2 1 1 [[Some 1; Some 2]; [Some 3; None]] [[true; true]; [true; false]]
+               [[false; false]; [false; false]] (100 # 1) qmean qvar noclip idw_first qmedian
+               1 1 None 0%Q true interp_first = AllExcluded.
+Proof. vm_compute. reflexivity. Qed.
+(* the premise of constant_image_exact is satisfiable with masked junk and a NaN present *)
+Example ex_constant_premise :
+  forall y x, (y < 2)%nat -> (x < 3)%nat ->
+    pix [[Some 7; Some 99; Some 7]; [None; Some 7; Some 7]]
+        [[false; true; false]; [false; false; false]]
+        [[false; false; false]; [false; false; false]] y x = None \/
+    pix [[Some 7; Some 99; Some 7]; [None; Some 7; Some 7]]
+        [[false; true; false]; [false; false; false]]
+        [[false; false; false]; [false; false; false]] y x = Some 7.
+Proof.
+  intros y x Hy Hx.
+  destruct y as [|[|y]]; [| |exfalso; apply (Nat.lt_irrefl 2), (Nat.le_lt_trans _ (S (S y))); [apply le_n_S, le_n_S, Nat.le_0_l|exact Hy]];
+  (destruct x as [|[|[|x]]]; [| | |exfalso; apply (Nat.lt_irrefl 3), (Nat.le_lt_trans _ (S (S (S x)))); [apply le_n_S, le_n_S, le_n_S, Nat.le_0_l|exact Hx]]);
+  vm_compute; auto.
+Qed.
